@@ -1448,6 +1448,38 @@ fn search_cert(obs: &[&str]) {
             }
         }
     }
+    // "the canonical sequence succeeds for any number of clients running it concurrently, each under its own client id": 24 clients released together call Start
+    // (6 rounds): every client id handed out is different, and each client's Test01 under its own id succeeds
+    for round in 0..6 {
+        explored += 1;
+        let barrier = Arc::new(std::sync::Barrier::new(24));
+        let sockp = sock.clone();
+        let hs: Vec<_> = (0..24).map(|_| { let b = barrier.clone(); let sp = sockp.clone(); std::thread::spawn(move || -> Option<(String, bool)> {
+            let st = UnixStream::connect(&sp).ok()?;
+            let _ = st.set_read_timeout(Some(Duration::from_millis(8000)));
+            let mut w = st.try_clone().ok()?;
+            let mut r = BufReader::new(st);
+            b.wait();
+            w.write_all(b"{\"method\":\"org.varlink.certification.Start\"}\0").ok()?;
+            let mut buf = Vec::new(); r.read_until(0, &mut buf).ok()?; buf.pop();
+            let id = serde_json::from_slice::<Value>(&buf).ok()?["parameters"]["client_id"].as_str()?.to_string();
+            b.wait();
+            let mut q = serde_json::to_vec(&json!({"method": "org.varlink.certification.Test01", "parameters": {"client_id": id}})).ok()?; q.push(0);
+            w.write_all(&q).ok()?;
+            let mut buf = Vec::new(); r.read_until(0, &mut buf).ok()?; buf.pop();
+            let ok = serde_json::from_slice::<Value>(&buf).ok().map(|v| v.get("error").is_none()).unwrap_or(false);
+            Some((id, ok))
+        }) }).collect();
+        let res: Vec<Option<(String, bool)>> = hs.into_iter().map(|h| h.join().ok().flatten()).collect();
+        let ids: Vec<String> = res.iter().filter_map(|x| x.as_ref().map(|p| p.0.clone())).collect();
+        let mut uniq = ids.clone(); uniq.sort(); uniq.dedup();
+        let failed: Vec<&String> = res.iter().filter_map(|x| x.as_ref().and_then(|p| if p.1 { None } else { Some(&p.0) })).collect();
+        if uniq.len() != ids.len() || !failed.is_empty() {
+            found.entry("step").or_insert(json!({"what": "24 clients calling Start at the same time", "round": round, "client_ids_handed_out": ids.len(), "distinct": uniq.len(),
+                "clients_whose_Test01_under_their_own_id_failed": failed.len(), "expected": "every client gets its own id and its canonical Test01 succeeds"}));
+            break;
+        }
+    }
     let _ = child.kill(); let _ = child.wait();
     let _ = std::fs::remove_dir_all(&dir);
     for ob in obs {
